@@ -27,6 +27,7 @@ int peek_client(const KSI_AsyncService *s, struct peek_client *out) {
 	out->occupied = 0;
 	for (i = 0; c->reqCache != NULL && i < c->options[KSI_ASYNC_OPT_REQUEST_CACHE_SIZE]; i++) if (c->reqCache[i] != NULL) out->occupied++;
 	out->has_server_conf = c->serverConf != NULL;
+	out->server_conf = c->serverConf;
 	out->request_count = c->requestCount;
 	out->request_count_offset = c->requestCountOffset;
 	out->tail = c->tail;
